@@ -26,22 +26,112 @@ func genPurity(repo, out string) {
 	var sites []string
 	files, _ := filepath.Glob(filepath.Join(repo, "*.go"))
 	sort.Strings(files)
+	var parsed []*ast.File
 	for _, f := range files {
 		if strings.HasSuffix(f, "_test.go") {
 			continue
 		}
-		base := filepath.Base(f)
 		af, err := parser.ParseFile(fset, f, nil, 0)
 		if err != nil {
 			panic(err)
 		}
+		parsed = append(parsed, af)
+	}
+	// The evaluation code, wherever it lives: every method named Do, every function handed over as a value
+	// in a package-level initialiser or an init function (the function table dispatches func_* that
+	// way), and — transitively — every unexported function and every method of the package they call by
+	// name.  Exported functions are entry points of their own (func_Select calls ParseString: the parser
+	// is not evaluation code) and are not followed.
+	byName := map[string][]*ast.FuncDecl{}
+	for _, af := range parsed {
+		for _, d := range af.Decls {
+			if fd, ok := d.(*ast.FuncDecl); ok && fd.Body != nil && fd.Name.Name != "init" {
+				byName[fd.Name.Name] = append(byName[fd.Name.Name], fd)
+			}
+		}
+	}
+	scope := map[*ast.FuncDecl]bool{}
+	var work []*ast.FuncDecl
+	add := func(fd *ast.FuncDecl) {
+		if !scope[fd] {
+			scope[fd] = true
+			work = append(work, fd)
+		}
+	}
+	for _, fd := range byName["Do"] {
+		if fd.Recv != nil {
+			add(fd)
+		}
+	}
+	valueRefs := func(n ast.Node) {
+		calls := map[*ast.Ident]bool{}
+		ast.Inspect(n, func(m ast.Node) bool {
+			if c, ok := m.(*ast.CallExpr); ok {
+				if id, ok := c.Fun.(*ast.Ident); ok {
+					calls[id] = true
+				}
+			}
+			return true
+		})
+		ast.Inspect(n, func(m ast.Node) bool {
+			if id, ok := m.(*ast.Ident); ok && !calls[id] && (id.Obj == nil || id.Obj.Kind == ast.Fun) {
+				for _, fd := range byName[id.Name] {
+					if fd.Recv == nil && !ast.IsExported(id.Name) {
+						add(fd)
+					}
+				}
+			}
+			return true
+		})
+	}
+	for _, af := range parsed {
+		for _, d := range af.Decls {
+			switch x := d.(type) {
+			case *ast.GenDecl:
+				if x.Tok == token.VAR {
+					valueRefs(x)
+				}
+			case *ast.FuncDecl:
+				if x.Name.Name == "init" && x.Body != nil {
+					valueRefs(x.Body)
+				}
+			}
+		}
+	}
+	for len(work) > 0 {
+		fd := work[len(work)-1]
+		work = work[:len(work)-1]
+		ast.Inspect(fd.Body, func(m ast.Node) bool {
+			c, ok := m.(*ast.CallExpr)
+			if !ok {
+				return true
+			}
+			switch f := c.Fun.(type) {
+			case *ast.Ident:
+				if !ast.IsExported(f.Name) && (f.Obj == nil || f.Obj.Kind == ast.Fun) {
+					for _, g := range byName[f.Name] {
+						if g.Recv == nil {
+							add(g)
+						}
+					}
+				}
+			case *ast.SelectorExpr:
+				for _, g := range byName[f.Sel.Name] {
+					if g.Recv != nil && purityFollowMethod(f.Sel.Name) {
+						add(g)
+					}
+				}
+			}
+			return true
+		})
+	}
+	for _, af := range parsed {
 		for _, d := range af.Decls {
 			fd, ok := d.(*ast.FuncDecl)
 			if !ok || fd.Body == nil {
 				continue
 			}
-			inScope := base == "funcs.go" || base == "helpers.go" || fd.Name.Name == "Do"
-			if !inScope || fd.Name.Name == "init" {
+			if !scope[fd] {
 				continue
 			}
 			name := fd.Name.Name
@@ -94,6 +184,15 @@ func genPurity(repo, out string) {
 							return root(sel.X)
 						}
 					}
+					// a function of this package handed a view of the caller's data may hand the same data
+					// back (getAsStructOrSlice returns its argument when it is a []any already)
+					if id, ok := x.Fun.(*ast.Ident); ok && len(byName[id.Name]) > 0 && (id.Obj == nil || id.Obj.Kind == ast.Fun) {
+						for _, a := range x.Args {
+							if r, ok := root(a); ok && tainted[r] {
+								return r, true
+							}
+						}
+					}
 				}
 				return "", false
 			}
@@ -101,7 +200,10 @@ func genPurity(repo, out string) {
 				r, ok := root(e)
 				return ok && tainted[r]
 			}
-			pos := func(n ast.Node) string { return fmt.Sprintf("%s:%d", base, fset.Position(n.Pos()).Line) }
+			pos := func(n ast.Node) string {
+				p := fset.Position(n.Pos())
+				return fmt.Sprintf("%s:%d", filepath.Base(p.Filename), p.Line)
+			}
 			// one pass in source order: a name is an alias from the point where it is bound to a view of
 			// tainted data until it is re-declared or bound to something fresh
 			for pass := 1; pass < 2; pass++ {
@@ -131,16 +233,18 @@ func genPurity(repo, out string) {
 									} else if call, ok := x.Rhs[i].(*ast.CallExpr); ok {
 										if f, ok := call.Fun.(*ast.Ident); ok && f.Name == "append" && len(call.Args) > 0 && aliases(call.Args[0]) {
 											// x = append(x, …) keeps aliasing
-										} else {
+										} else if x.Tok == token.DEFINE {
 											delete(tainted, id.Name)
 										}
-									} else {
+									} else if x.Tok == token.DEFINE {
+										// only a NEW binding ends the alias: a plain assignment may sit in one branch
+										// (`if isMap(val) { val = … }`) while the other branch keeps the caller's data
 										delete(tainted, id.Name)
 									}
 								} else if len(x.Rhs) == 1 && i == 0 {
 									if aliases(x.Rhs[0]) {
 										tainted[id.Name] = true // v, ok := p.(T)
-									} else {
+									} else if x.Tok == token.DEFINE {
 										delete(tainted, id.Name)
 									}
 								}
@@ -255,4 +359,14 @@ func exprText(e ast.Expr) string {
 		return exprText(x.X)
 	}
 	return "expr"
+}
+
+// purityFollowMethod: methods of the other phases (parsing, validation, printing, analysis) are not
+// evaluation code even when a method of that name is called on some value during evaluation
+func purityFollowMethod(name string) bool {
+	switch name {
+	case "Parse", "Validate", "Reset", "Scan":
+		return false
+	}
+	return true
 }
